@@ -88,3 +88,35 @@ func init() {
 		}
 	})
 }
+
+func init() {
+	extraSpecs = append(extraSpecs, func(m map[string]*Spec) {
+		m["C06"] = &Spec{
+			ID: "C06", Level: "fault_enumeration", Main: "inst", Variants: []string{"inst"}, Block: 2,
+			QuickWall: 4 * time.Minute, ThoroughWall: 20 * time.Minute, BlockWall: 15 * time.Minute,
+			Nontrivial: "case",
+			Rule: "seeded generated bundles in valid mode and in chaos mode (1-4 typing-discipline-breaking mutations: ill-typed / out-of-range / wrong-arity expressions and directives, non-positive range steps, a template name defined again in a second shorter file, " +
+				"failing prints inside callees, plural on non-integers, data of arbitrary JSON shape with missing params). For every entry: a fault-free reference run under the simulator's step clock records every invocation of the vfail function/directive, every write and every catalogue lookup; " +
+				"then one run per fault point: a panic of each of four kinds (error, string, runtime.Error, struct) at the n-th invocation, a writer error (sticky and transient) at the k-th write, each misbehaving catalogue (unknown placeholder, plural part for a plain message, " +
+				"plural case out of range / negative) from the start and from the m-th lookup on; through Tofu.Render, Renderer.Execute with and without Inject / WithMessages. Plus soyhtml.EvalExpr(parse.Expr(e)) for the case's expressions and chaos expressions, " +
+				"and soy.ParseGlobals of a generated globals file through a reader with short reads, an error (with and without data) and an early EOF at every byte offset. Oracle: the call returns - no panic escapes, the step budget is not exhausted, no deadlock. " +
+				"A case is distinct by (bundle skeleton, chaos mutations); fault points are enumerated exhaustively per case (write indices sampled beyond 120 calls).",
+			Assumptions: []string{
+				"the oracle does not require an injected fault to yield an error, only that nothing escapes, hangs or blocks",
+				"the all-compilable-bundles and all-data-shapes part of the quantifier is sampled by the generator; the fault dimension is enumerated",
+				"step budget is a harness constant far above the measured need of legitimate generated workloads (max_steps_fault_free)",
+			},
+			Components: map[string][]string{"real": realSoy, "stub": {"io.Writer", "io.Reader", "soymsg.Bundle", "vfail function and directive"}, "replaced": {"wall-clock time (step clock)"}},
+			RequireProbes: []string{"fault_fired_panic-error", "fault_fired_panic-string", "fault_fired_panic-runtime-error", "fault_fired_panic-struct", "fault_fired_write", "fault_fired_read",
+				"fault_fired_bundle-unknown-placeholder", "fault_fired_bundle-plural-for-plain", "fault_fired_bundle-plural-case-high", "fault_fired_bundle-plural-case-negative",
+				"chaos_duplicate-template", "chaos_for-step", "chaos_expr:print", "chaos_directive", "chaos_data", "api_render", "api_execute", "api_execute-noij", "evalexpr", "globals_parses"},
+			Post: func(e *Env, s *Spec, agg *Agg, cov map[string]interface{}) error {
+				v, d := agg.Counters["valid_cases"], agg.Counters["valid_discards"]
+				if v > 50 && d*50 > v {
+					return troublef("generator discards in valid mode above 2%% (%d of %d): generator defect", d, v)
+				}
+				return nil
+			},
+		}
+	})
+}
